@@ -15,7 +15,7 @@ except Exception:  # noqa
 META = {
     "id": "C01",
     "technique": "Coq proof about Gallina models of the transpiler (expression translation ToC/CSem vs PySem; statement translation Transl with skeleton-preservation and simulation theorems) + model/IR and model/firmware correspondence + firmware-vs-CPython trace oracle",
-    "level_text": "Theorems in coq/Props/C01_*.v are proved for all programs/expressions of the modelled fragment; the models are tied to parser.py by regenerated operator tables, by comparing the model's IR with the real parser's IR, and by running the emitted C++ (g++ + mock Arduino core) against the model and against CPython on generated programs. Known deviations of Reduino from Python (int true division, macro double evaluation, re-evaluated range bound, serial text of bool/float) are refuted theorems + listed findings; generated cases stay inside the guard. Floor division and modulo (emitted as C / and %) and ** (emitted verbatim) are repaired (fixed findings F-C01-floordiv, F-C01-mod-sign, F-C01-mod-float, F-C01-pow: // and % are calls of helper templates with Python's semantics, ** is rejected): their witnesses are replayed first on every run (a failure is a VIOLATION), the refuted theorems are replaced by positive ones (C01_floordiv_helper_floors, C01_mod_helper_sign_of_divisor, C01_floordiv_preserved, C01_mod_preserved, C01_floordiv_closed, C01_mod_closed, C01_pow_never_emitted) and // % are generated on operands of every sign and kind. `continue`, which the parser used to drop silently, is repaired (fixed finding F-C01-continue-dropped: witness replayed first on every run, a failure is a VIOLATION); it is outside the Coq statement fragment and is covered by the firmware-vs-CPython trace oracle on generated programs with `continue` in for/while loops, nested ifs and the main loop body.",
+    "level_text": "Theorems in coq/Props/C01_*.v are proved for all programs/expressions of the modelled fragment; the models are tied to parser.py by regenerated operator tables, by comparing the model's IR with the real parser's IR, and by running the emitted C++ (g++ + mock Arduino core) against the model and against CPython on generated programs. Known deviations of Reduino from Python (int true division, macro double evaluation, re-evaluated range bound, loop variable assigned in a for-range body, serial text of bool/float) are refuted theorems + listed findings; generated cases stay inside the guard. Floor division and modulo (emitted as C / and %) and ** (emitted verbatim) are repaired (fixed findings F-C01-floordiv, F-C01-mod-sign, F-C01-mod-float, F-C01-pow: // and % are calls of helper templates with Python's semantics, ** is rejected): their witnesses are replayed first on every run (a failure is a VIOLATION), the refuted theorems are replaced by positive ones (C01_floordiv_helper_floors, C01_mod_helper_sign_of_divisor, C01_floordiv_preserved, C01_mod_preserved, C01_floordiv_closed, C01_mod_closed, C01_pow_never_emitted) and // % are generated on operands of every sign and kind. `continue`, which the parser used to drop silently, is repaired (fixed finding F-C01-continue-dropped: witness replayed first on every run, a failure is a VIOLATION); it is outside the Coq statement fragment and is covered by the firmware-vs-CPython trace oracle on generated programs with `continue` in for/while loops, nested ifs and the main loop body.",
     "level_note": "Trusted: Coq kernel, extraction, the mock Arduino core and g++ as the definition of the device, CPython as the definition of Python, translator for operator tables. The statement-level simulation is proved modulo the expression-level theorem (shared opaque expression semantics). Helper functions: return type and returned value are modelled (Lang/FnRet.v), the order of tuple right-hand sides is proved on the emitted node list (Lang/TupleOrder.v); parameters, variants, call sites inside expressions, lists, try/except and strings beyond literals are covered only by the differential oracle (generated helpers with several return statements and effectful call sites in every expression position).",
     "design_ref": "DESIGN.md section 4 C01, Appendix B",
 }
@@ -41,7 +41,7 @@ def run(ctx: C.Ctx):
     ctx.coverage.update({
         "evaluations": cov["evaluations"], "distinct_nontrivial": cov["distinct_nontrivial"],
         "samples": cov["samples"], "rule": " | ".join(cov["rule"]), "units": parts,
-        "guard": "operators // and % on any numeric operands with a non-zero divisor (a zero divisor is not a well-defined script); / only with a float operand; ** only where the transpiler folds it (otherwise rejected); no side-effecting call inside abs/min/max or a chained comparison; at most one effectful helper call per sequenced region of an expression and no read of a global it writes; the return statements of one helper have one kind (int-like / float / str); a global a helper assigns is first assigned above the def; range() bound independent of the loop body; stable variable types; serial values compared at value level (bool 1/0, floats to 2 decimals)",
+        "guard": "operators // and % on any numeric operands with a non-zero divisor (a zero divisor is not a well-defined script); / only with a float operand; ** only where the transpiler folds it (otherwise rejected); no side-effecting call inside abs/min/max or a chained comparison; at most one effectful helper call per sequenced region of an expression and no read of a global it writes; the return statements of one helper have one kind (int-like / float / str); a global a helper assigns is first assigned above the def; range() bound independent of the loop body; the body of a for-range loop does not assign its loop variable; stable variable types; serial values compared at value level (bool 1/0, floats to 2 decimals)",
         "unmodelled": ["`continue` (no constructor in Lang/StmtAst.v: a stated limit of the proved fragment; differential oracle only)", "helper parameters / per-signature variants / call sites inside expressions (return type and returned value are modelled: Lang/FnRet.v), C++ operand evaluation order inside one expression (finding F-C01-eval-order), lists/comprehensions, try/except, string methods (differential oracle only)", "16-bit int overflow on a real AVR (mock is a 32-bit hosted g++)", "CPython recursion limits"],
         "trusted_base": C.COMMON_TRUSTED + ["mock/ Arduino core + g++ 12 (definition of the device)", "harness/impl/pyrun_impl.py (CPython reference trace)", "harness/impl/c01_stmt_impl.py (IR shape of the real parser)"],
     })
